@@ -312,6 +312,10 @@ func Versions(name string, level int) G {
 		g = Alt(g, Seq(Lit(chain+"."), Lit("1", "2", "10", "0")))
 	}
 	g = Alt(g, Lit("1.2.3.4.rc1-beta.2", "1.2.3.4.rc1-beta.3", "1.2.3.4.rc1.beta.2", "1.2.3.4-rc.1.beta.2", "1.2.3.4-rc.1.beta.3"))
+	// shorthand-base neighbourhoods (used by C20): releases around 0.2.3 / 1.2.3 and pre-release
+	// spellings of versions in between, under every common marker
+	g = Alt(g, Lit("0.2.3", "0.2.4", "0.2.6", "0.3.0", "1.2.3", "1.2.4", "1.2.6", "1.3.0", "2.0.0"),
+		Seq(Lit("0.2.5", "1.2.5", "1.9.0"), Lit("-alpha", "-beta1", "-beta", "-rc.1", "-RC1", "a1", "rc1", "~rc1", "_rc1", ".rc1", "-SNAPSHOT", "-rc1", ".pre", "-dev")))
 	// one-slot substitution closure of the ecosystem's typical shapes (see SlotMutations)
 	g = Alt(g, SlotFamily(name))
 	return g
